@@ -23,6 +23,7 @@ const apiVersion = 1
 type confirmable struct {
 	Name    string `json:"n"`
 	Started int64  `json:"t"` // Expects Unix
+	Hash    string `json:"h,omitempty"`
 }
 
 func (c *confirmable) GetName() string {
@@ -258,6 +259,7 @@ func (h *Client) Validate(sent []sts.Pollable) (polled []sts.Polled, err error) 
 		cf = append(cf, &confirmable{
 			Name:    f.GetName(),
 			Started: f.GetStarted().Unix(),
+			Hash:    f.GetHash(),
 		})
 		fmap[f.GetName()] = f
 	}
